@@ -6,6 +6,7 @@ use crate::pat::*;
 use log4rs::encode::pattern::PatternEncoder;
 use proptest::prelude::*;
 use serde::{Deserialize, Serialize};
+use std::sync::Mutex;
 
 pub const ALPHABET: [char; 14] = ['{', '}', '(', ')', '\\', ':', '<', '>', '.', '0', '9', 'm', 'd', '%'];
 pub const WIDTH_SANITY: u128 = 4096;
@@ -207,7 +208,7 @@ pub struct Broken {
     pub rec: Rec,
 }
 
-pub const BREAKERS: [&str; 44] = [
+pub const BREAKERS: [&str; 50] = [
     "{m:99999999999999999999.3}", "{m:_<18446744073709551616.3}", "{m:3.99999999999999999999}", "{l:>99999999999999999999.99999999999999999999}", "{(x):18446744073709551616}", "{m:0.18446744073709551616}",
     "}", ")", "(", "\\x", "\\", "{nope}", "{zz9}", "{m(x)}", "{l()}", "{h}", "{D}", "{R}", "{}", "{(a)(b)}", "{d(%Y)(mars)}", "{d(%Y)()}",
     "{d(%Y)(utc)(x)}", "{X}", "{X()}", "{X(a)(b)(c)}", "{X({m})}", "{m:5", "{m:>", "{(abc", "{m:5.x}", "{m:x5}", "{m 5}", "{h(a)(b)}",
@@ -216,6 +217,8 @@ pub const BREAKERS: [&str; 44] = [
     "{d(%Y)(utc{m})}", "{d(%Y)(local{{)}", "{d(%Y)(utc\\))}", "{d(%Y)(local{d(%Y)(utc)})}", "{d(%Y)(utcutc)}",
     // an error inside the date format under the date formatter's own (small) max width
     "{d({m}):.0}", "{d(%Y {l}):.3}", "{d(%Y{nope})(utc):>2.4}",
+    // characters that are numeric for Unicode but no digits of the grammar, in width positions
+    "{m:\u{663}}", "{m:>\u{b2}}", "{m:.\u{2460}}", "{m:1\u{96b}}", "{l:\u{ff13}.\u{ff15}}", "{m:<\u{2167}}",
 ];
 
 pub fn broken_strategy() -> impl Strategy<Value = Broken> {
@@ -274,10 +277,10 @@ pub struct Soup {
     pub rec: Rec,
 }
 
-const TOKENS: [&str; 48] = [
+const TOKENS: [&str; 53] = [
     "{", "}", "(", ")", "\\", ":", "<", ">", ".", "{{", "}}", "((", "))", "{m}", "{d}", "{d(", "{date(", "%Y", "%Q", "%", "%.3f", "%+", "%#z", "%:::z", "%-", "utc",
     "local", "{X(", "{h(", "{D(", "{R(", "{(", "{l", "{thread_id", "m", "é", "😀", "\u{0301}", "\n", "0", "9", "5", "12", "4095", "4097", "99999999999999999999999",
-    "18446744073709551616", "x",
+    "18446744073709551616", "x", "\u{663}", "\u{b2}", "\u{2460}", "\u{ff13}", "{m:",
 ];
 
 pub fn soup_strategy() -> impl Strategy<Value = Soup> {
@@ -349,7 +352,86 @@ fn sweep_date_directives(run: &Run) -> bool {
     ok
 }
 
+// ---- encoding while the thread is being torn down --------------------------------------------------------------------
+
+/// A thread-local guard that logs "worker finished" from its destructor is an ordinary thing to have; by then other
+/// thread-locals of the thread (registered later) are already gone. Runs in a child process: a panic inside a
+/// thread-local destructor aborts the process. Left out: local-zone dates, thread names and MDC lookups, which rest on
+/// thread-locals of chrono, std and log-mdc themselves (chrono's `Local` cannot be used from a thread-local destructor).
+#[derive(Serialize, Deserialize, Debug, Clone)]
+pub struct Teardown {
+    pub patterns: Vec<String>,
+}
+
+static TEARDOWN_PATTERNS: Mutex<Vec<String>> = Mutex::new(Vec::new());
+static TEARDOWN_LIFE: Mutex<Vec<String>> = Mutex::new(Vec::new());
+static TEARDOWN_EXIT: Mutex<Vec<Result<String, String>>> = Mutex::new(Vec::new());
+
+struct ExitGuard;
+
+fn teardown_encode(p: &str) -> Result<String, String> {
+    let enc = PatternEncoder::new(p);
+    let mut w = CapW::new(vec![]);
+    let rec = log::Record::builder().args(format_args!("bye")).level(log::Level::Info).target("app").module_path(Some("m")).file(Some("f.rs")).line(Some(1)).build();
+    match catch(|| log4rs::encode::Encode::encode(&enc, &mut w, &rec)) {
+        Ok(Ok(())) => Ok(String::from_utf8_lossy(&w.bytes()).to_string()),
+        Ok(Err(e)) => Err(format!("error: {}", e)),
+        Err(p) => Err(format!("panic: {}", p)),
+    }
+}
+
+impl Drop for ExitGuard {
+    fn drop(&mut self) {
+        let pats = TEARDOWN_PATTERNS.lock().unwrap().clone();
+        for p in pats {
+            let r = teardown_encode(&p);
+            TEARDOWN_EXIT.lock().unwrap().push(r);
+        }
+    }
+}
+
+thread_local! {
+    static EXIT_GUARD: ExitGuard = ExitGuard;
+}
+
+pub fn teardown_child(c: &Teardown, obs: &mut Obs) -> CaseResult {
+    *TEARDOWN_PATTERNS.lock().unwrap() = c.patterns.clone();
+    let pats = c.patterns.clone();
+    let h = std::thread::Builder::new().name("worker".into()).spawn(move || {
+        // the guard first, so that everything the encoder keeps per thread is registered after it
+        EXIT_GUARD.with(|_| {});
+        for p in &pats {
+            let r = teardown_encode(p);
+            TEARDOWN_LIFE.lock().unwrap().push(r.unwrap_or_else(|e| e));
+        }
+    });
+    let joined = h.unwrap().join();
+    ensure!(joined.is_ok(), "C11:panic:thread-exit", "the worker thread ended with a panic");
+    let life = TEARDOWN_LIFE.lock().unwrap().clone();
+    let exit = TEARDOWN_EXIT.lock().unwrap().clone();
+    ensure!(exit.len() == c.patterns.len(), "C11:panic:thread-exit", "the thread-exit guard encoded {} of {} patterns", exit.len(), c.patterns.len());
+    for (i, p) in c.patterns.iter().enumerate() {
+        obs.sub_evals += 1;
+        match &exit[i] {
+            Err(e) => return fail("C11:panic:thread-exit", format!("pattern {:?} encoded from a thread-local destructor at thread exit: {}", p, e)),
+            Ok(s) => ensure!(*s == life[i], "C11:thread-exit-output-differs", "pattern {:?}: {:?} during the thread's life, {:?} from a thread-local destructor at its exit", p, life[i], s),
+        }
+    }
+    obs.nontrivial = true;
+    Ok(())
+}
+
+pub fn check_teardown(tmp: &std::path::Path, c: &Teardown, obs: &mut Obs) -> CaseResult {
+    let out = crate::child::call_child(tmp, "c11tls", c, &[], std::time::Duration::from_secs(60));
+    crate::child::absorb(out, obs)
+}
+
 pub fn run(run: &Run) {
+    if run.worker.0 == 0 {
+        let t = run.tmp.clone();
+        let pats: Vec<String> = ["{I}", "{thread_id}|{l}|{m}", "{P}|{pid}", "{h({l})} {m}{n}", "{d(%Y)(utc)}", "{t}|{M}|{f}|{L}", "{({I}):>12}|{m:<5.5}", "{i}"].iter().map(|s| s.to_string()).collect();
+        run.eval_one("thread-exit", &Teardown { patterns: pats }, &move |c: &Teardown, o: &mut Obs| check_teardown(&t, c, o));
+    }
     run.run_replays::<Str>("exhaustive", &check_str);
     if sweep_date_directives(run) {
         run.exhaustive("all strftime directives %<modifier><c> for 16 modifiers x printable ASCII c, in three date formatter shapes");
@@ -370,6 +452,13 @@ pub fn replay(part: &str, case: serde_json::Value) -> Option<CaseResult> {
         "exhaustive" | "date-directives" => Some(check_str(&serde_json::from_value(case).ok()?, &mut Obs::default())),
         "broken" => Some(check_broken(&serde_json::from_value(case).ok()?, &mut Obs::default())),
         "soup" => Some(check_soup(&serde_json::from_value(case).ok()?, &mut Obs::default())),
+        "thread-exit" => {
+            let tmp = std::env::temp_dir().join(format!("lv-replay-{}", std::process::id()));
+            std::fs::create_dir_all(&tmp).ok()?;
+            let r = check_teardown(&tmp, &serde_json::from_value(case).ok()?, &mut Obs::default());
+            let _ = std::fs::remove_dir_all(&tmp);
+            Some(r)
+        }
         _ => None,
     }
 }
@@ -377,7 +466,7 @@ pub fn replay(part: &str, case: serde_json::Value) -> Option<CaseResult> {
 pub fn meta() -> EvidenceMeta {
     EvidenceMeta {
         level: "exploration",
-        rule: "three sources, each under both build profiles (overflow checks on/off): (1) exhaustive: every string over the 14 syntax symbols up to the length bound; (2) broken: generated valid pattern AST (rendered by the reference) + one of 44 breaker tokens (lone special, unknown formatter, wrong arity, bad zone, unterminated formatter, malformed spec) + generated suffix: output must start with the reference rendering of the prefix and show {ERROR: after it, or encode must return Err; (3) soup: arbitrary Unicode strings, token soup incl. 20-digit widths and strftime fragments, and 1-3 character edits of valid patterns. Oracle everywhere: catch_unwind around PatternEncoder::new and encode never unwinds; output valid UTF-8. Encoding is skipped when an explicit digit run exceeds 4096 (sanity bound of the statement). non-trivial = output holds both an error marker and other text, or a digit run >= 10 digits, or a % inside a date argument; distinct = FNV hash".into(),
+        rule: "three sources, each under both build profiles (overflow checks on/off): (1) exhaustive: every string over the 14 syntax symbols up to the length bound; (2) broken: generated valid pattern AST (rendered by the reference) + one of 50 breaker tokens (lone special, unknown formatter, wrong arity, bad zone, unterminated formatter, malformed spec) + generated suffix: output must start with the reference rendering of the prefix and show {ERROR: after it, or encode must return Err; (3) soup: arbitrary Unicode strings, token soup incl. 20-digit widths and strftime fragments, and 1-3 character edits of valid patterns. Oracle everywhere: catch_unwind around PatternEncoder::new and encode never unwinds; output valid UTF-8. Encoding is skipped when an explicit digit run exceeds 4096 (sanity bound of the statement). non-trivial = output holds both an error marker and other text, or a digit run >= 10 digits, or a % inside a date argument; distinct = FNV hash".into(),
         assumptions: vec!["panics are observed through catch_unwind (aborts would kill the worker: exit 2)".into()],
         mutants_caught: vec![],
     }
